@@ -4,7 +4,7 @@ mutators, constructors, the constructors used by the readers - must be g(...), a
 integral value passed through unchanged (parameter / literal / local integral), never a different computation (in particular
 not a floating-point to integer conversion that bypasses g). Breaking this makes a restored / reset object disagree with the
 live one on state that is not stored in the image."""
-from astu import C, ctxt, gt_pair, eq_const, strip, strip_all, walk, txt, short, is_this_field, field_name, functions_by, local_decls
+from astu import C, ctxt, gt_pair, eq_const, reach, reach_txt, ctext, strip, strip_all, walk, txt, short, is_this_field, field_name, functions_by, local_decls
 from vlib.core import ob
 
 DERIVED = [
